@@ -5,7 +5,7 @@ set_option linter.unusedSimpArgs false
 -/
 namespace Verif.Proofs.Num
 open Verif.Model.Num
-open Verif.Spec.Num (parse Parsed isNumber isDecimal numVal stripZeros leadExp WithinHalfUnit trigExpNear)
+open Verif.Spec.Num (parse Parsed isNumber isDecimal numVal stripZeros leadExp WithinHalfUnit)
 
 theorem trimmed_mlen_le (l : Lex) (hwf : l.WF) :
     mlen (dropZeros l.ip) (dropTrail '0' l.fp) ≤ l.str.length := by
@@ -28,22 +28,22 @@ theorem trimmed_mlen_le (l : Lex) (hwf : l.WF) :
   · have := hd hf
     omega
 
-theorem number_round_lex (l : Lex) (hwf : l.WF) (p : Int) (hp : 0 < p)
-    (hg : l.expVal.natAbs + l.str.length + 4 < 9223372036854775808) :
+theorem number_round_lex (l : Lex) (hwf : l.WF) (p : Int) (hp : 0 < p) :
     ∃ w, numVal (number l.str p) = some w ∧ WithinHalfUnit l.str p l.val w := by
-  rcases number_lex l hwf p (fun m0 h => rnd_wf h p) with h | ⟨l', h1, h2, _, _, h5⟩
+  rcases number_lex l hwf p (fun m0 h => rnd_wf h p) with h | ⟨l', h1, h2, _, _, h5, _⟩
   · rw [h]; exact ⟨l.val, numVal_str l hwf, within_refl _ _ _⟩
   · refine ⟨l'.val, by rw [← h2]; exact numVal_str l' h1, ?_⟩
-    rcases h5 with ⟨z1, z2⟩ | ⟨hm, hv⟩
+    rcases h5 with ⟨z1, z2, _⟩ | ⟨hm, hgd, hv, _⟩
     · rw [z1, z2]; exact within_refl _ _ _
     · have hml := trimmed_mlen_le l hwf
       have hrnd : rnd p ⟨dropZeros l.ip, dropTrail '0' l.fp, l.expVal⟩ =
           roundP ⟨dropZeros l.ip, dropTrail '0' l.fp, l.expVal⟩ p.toNat := by
         unfold rnd; rw [if_pos hp]
       rw [hrnd] at hv
-      have hguard : (⟨dropZeros l.ip, dropTrail '0' l.fp, l.expVal⟩ : Mant).e.natAbs +
-          mlen (⟨dropZeros l.ip, dropTrail '0' l.fp, l.expVal⟩ : Mant).ip (⟨dropZeros l.ip, dropTrail '0' l.fp, l.expVal⟩ : Mant).fp + 3 <
-          9223372036854775808 := by simp only []; omega
+      have hguard : -9223372036854775808 ≤ (⟨dropZeros l.ip, dropTrail '0' l.fp, l.expVal⟩ : Mant).e ∧
+          (⟨dropZeros l.ip, dropTrail '0' l.fp, l.expVal⟩ : Mant).e +
+            (mlen (⟨dropZeros l.ip, dropTrail '0' l.fp, l.expVal⟩ : Mant).ip (⟨dropZeros l.ip, dropTrail '0' l.fp, l.expVal⟩ : Mant).fp : Int) <
+          9223372036854775808 := noWrap_of_guard hp hgd hml
       have hlen := roundP_len ⟨dropZeros l.ip, dropTrail '0' l.fp, l.expVal⟩ p.toNat (by omega) hguard
       rw [hv hlen]
       have hval : l.val = mantVal l.sg.neg ⟨dropZeros l.ip, dropTrail '0' l.fp, l.expVal⟩ := by
